@@ -51,6 +51,16 @@ func newMethodChannel(p *syntax.MethodChannel) (*MethodChannel, error) {
 
 // resolve
 
+func (ch *MethodChannel) compile() error {
+	if in := ch.In; in != nil && in.Kind != KindMessage {
+		return fmt.Errorf("invalid channel in type, must be a message, got %q instead", in.Kind)
+	}
+	if out := ch.Out; out != nil && out.Kind != KindMessage {
+		return fmt.Errorf("invalid channel out type, must be a message, got %q instead", out.Kind)
+	}
+	return nil
+}
+
 func (ch *MethodChannel) resolve(file *File) error {
 	if ch.In != nil {
 		if err := ch.In.resolve(file); err != nil {
